@@ -71,7 +71,6 @@ def preState (mode : Mode) (srtp : Bool) (hasApp : Bool) (nch : Nat) (peer : Pee
   { b with peer := peer, sig := sig, reason := reason, ice := ice, iceSeen := iceSeen, dtls := dtls, dtlsSeen := dtls,
            role := role, held := sctpPresent, needDescs := srtp, descs := descs || !srtp,
            sctp := if sctpPresent then (if dtls = .connected then .running else .waiting) else .absent,
-           iceTask := ice = .checking ∨ (ice = .connected ∧ peer ≠ .connected), iceStopped := ice = .closed,
            drv := drv }
 
 def eventActs : String → Option (List (List Act))
@@ -118,7 +117,7 @@ partial def explore (dropped : Bool) (todo : List (St × List Act)) (seen : List
         | some a => (step s a, removeNth pend i)
         | none => (s, pend))
       -- optional progress actions may also simply never happen
-      let optional := pend.all (fun a => a == .iceConnect || a == .dtlsConnect || a == .roleSet || a == .descsSet || a == .iceLateFail)
+      let optional := pend.all (fun a => a == .iceConnect || a == .dtlsConnect || a == .roleSet || a == .descsSet)
       let acc := if ints.isEmpty && optional && !(s.dtls == .handshaking && !s.dtlsExited) then
           let t := outcomeText s dropped
           if acc.contains t then acc else t :: acc
@@ -144,7 +143,7 @@ def life (args : List String) : String :=
         match evs.mapM eventActs with
         | none => "bad-event"
         | some alts =>
-          let prog : List Act := (if progress = "1" then [.iceConnect, .dtlsConnect, .roleSet, .descsSet] else []) ++ (if s0.iceTask then [.iceLateFail] else [])
+          let prog : List Act := if progress = "1" then [.iceConnect, .dtlsConnect, .roleSet, .descsSet] else []
           let dropped := evs.contains "drop"
           let outs := (alternatives alts).flatMap (fun ext => explore dropped [(s0, ext ++ prog)] [] [])
           let outs := outs.eraseDups
